@@ -8,14 +8,78 @@ C35 (tags `ty=<type> members=<k>`; formats in `Driver/Wire.lean`)
   m2m <sender> <dest>@<value>..  -> per member `m=<sender>@<value>|..` (`-` if nothing), or `panic`
   o2m <dest>@<value>..           -> per member `m=<value>|..`, or `panic`
   m2o <sender> <value>..         -> `<sender>@<value>|..`
+C39 (tags `kind=q|w|j min=<m> max=<M>`; one case = one run of the state machine)
+  batch <key>:o[<val>] <key>:e<err> ..  -> `q=<emitted in this tick> e=<errors>`
+  tick r=<k>:<v>,.. m=<k>:<m>,..        -> `j=<k>:<m>:<v>,..`
 Anything else -> bad-op.
 -/
 import HvNet.Driver.Wire
+import HvNet.Model.Quorum
 open HvNet HvNet.Wire
 
 structure St where
   ty : Ty := .tup .nil
   members : Nat := 0
+  kind : String := ""
+  min : Nat := 0
+  max : Nat := 0
+  qst : Quorum.St Nat Nat Nat := {}
+  rem : List (Nat × Nat) := []
+
+/-! ### C39 -/
+open Quorum in
+def parseResp (kind : String) (w : String) : Option (Resp Nat Nat Nat) :=
+  match w.splitOn ":" with
+  | [k, r] =>
+    match k.toNat? with
+    | some k =>
+      if r.startsWith "o" then
+        let v := (r.drop 1).toString
+        if kind == "q" then (if v.isEmpty then some (k, .ok 0) else none)
+        else v.toNat?.map fun v => (k, .ok v)
+      else if r.startsWith "e" then ((r.drop 1).toString.toNat?).map fun e => (k, .err e)
+      else none
+    | none => none
+  | _ => none
+
+def showPairs (keysOnly : Bool) (xs : List (Nat × Nat)) : String :=
+  if xs.isEmpty then "-" else ",".intercalate (xs.map fun (k, v) => if keysOnly then s!"{k}" else s!"{k}:{v}")
+
+def parseKv (s : String) : Option (List (Nat × Nat)) :=
+  if s == "-" then some [] else
+  (s.splitOn ",").mapM fun p =>
+    match p.splitOn ":" with
+    | [a, b] => match a.toNat?, b.toNat? with
+      | some a, some b => some (a, b)
+      | _, _ => none
+    | _ => none
+
+def lexLe3 (a b : Nat × Nat × Nat) : Bool :=
+  a.1 < b.1 || (a.1 == b.1 && (a.2.1 < b.2.1 || (a.2.1 == b.2.1 && a.2.2 ≤ b.2.2)))
+
+open Quorum in
+def c39Op (st : St) (cmd : List String) : Option (St × String) :=
+  match st.kind, cmd with
+  | "q", "batch" :: items =>
+    (items.mapM (parseResp "q")).map fun b =>
+      let r := stepQ st.min st.max st.qst b
+      let keys := r.2.mergeSort (· ≤ ·)
+      ({ st with qst := r.1 }, s!"q={showPairs true (keys.map fun k => (k, 0))} e={showPairs false (errorsOut b)}")
+  | "w", "batch" :: items =>
+    (items.mapM (parseResp "w")).map fun b =>
+      let r := stepW st.min st.max st.qst b
+      ({ st with qst := r.1 }, s!"q={showPairs false r.2} e={showPairs false (errorsOut b)}")
+  | "j", ["tick", r, m] =>
+    if r.startsWith "r=" && m.startsWith "m=" then
+      match parseKv (r.drop 2).toString, parseKv (m.drop 2).toString with
+      | some r, some m =>
+        let res := stepJ st.rem r m
+        let out := (res.2.map fun (k, (m, v)) => (k, m, v)).mergeSort lexLe3
+        let s := if out.isEmpty then "-" else ",".intercalate (out.map fun (k, m, v) => s!"{k}:{m}:{v}")
+        some ({ st with rem := res.1 }, s!"j={s}")
+      | _, _ => none
+    else none
+  | _, _ => none
 
 def tagVal (ws : List String) (key : String) : Option String :=
   (ws.filterMap fun w => if w.startsWith (key ++ "=") then some ((w.drop (key.length + 1)).toString) else none).head?
@@ -74,11 +138,19 @@ def step (st : St) (line : String) : St × String :=
   | "#case" :: ws =>
     let ty := ((tagVal ws "ty").bind parseTyStr).getD (.tup .nil)
     let members := ((tagVal ws "members").bind String.toNat?).getD 0
-    ({ ty, members }, l)
+    let kind := (tagVal ws "kind").getD ""
+    let min := ((tagVal ws "min").bind String.toNat?).getD 0
+    let max := ((tagVal ws "max").bind String.toNat?).getD 0
+    ({ ty, members, kind, min, max }, l)
   | cmd =>
-    match c35Op st cmd with
-    | some out => (st, out)
-    | none => (st, "bad-op")
+    if st.kind == "" then
+      match c35Op st cmd with
+      | some out => (st, out)
+      | none => (st, "bad-op")
+    else
+      match c39Op st cmd with
+      | some (st', out) => (st', out)
+      | none => (st, "bad-op")
 
 partial def loop (h : IO.FS.Stream) (out : IO.FS.Stream) (st : St) : IO Unit := do
   let line ← h.getLine
